@@ -1,0 +1,109 @@
+//go:build verif
+
+package peer
+
+import (
+	"net/netip"
+	"time"
+
+	"github.com/jech/storrent/bitmap"
+	"github.com/jech/storrent/peer/requests"
+	"github.com/jech/storrent/pex"
+	"github.com/jech/storrent/protocol"
+	"github.com/jech/storrent/tor/piece"
+)
+
+// VerifNew creates a peer that is not running: the verification harness
+// owns its mailboxes and calls the handlers itself.
+func VerifNew(pieces *piece.Pieces, info []byte, myBitmap bitmap.Bitmap,
+	addr netip.AddrPort, result protocol.HandshakeResult,
+	torEvent chan TorEvent, writer chan protocol.Message) *Peer {
+	p := New("", nil, addr, false, result)
+	p.Pieces = pieces
+	p.Info = info
+	p.myBitmap = myBitmap
+	p.torEvent = torEvent
+	p.torDone = make(chan struct{})
+	p.writer = writer
+	p.writerDone = make(chan struct{})
+	p.reqQ = 128
+	p.time = time.Now()
+	p.writeTime = time.Now()
+	return p
+}
+
+func VerifHandleMessage(p *Peer, m protocol.Message) error { return handleMessage(p, m) }
+func VerifHandleEvent(p *Peer, e PeerEvent) error         { return handleEvent(p, e) }
+func VerifMaybeRequest(p *Peer)                           { maybeRequest(p) }
+func VerifUploadTick(p *Peer) error                       { return scheduleUpload(p, true) }
+func VerifSendPex(p *Peer)                                { sendPex(p) }
+
+// VerifTick is the request part of the 2 s ticker of Run.
+func VerifTick(p *Peer) {
+	if expireRequests(p) {
+		maybeRequest(p)
+	}
+}
+
+// VerifAge makes the outstanding requests d older.
+func VerifAge(p *Peer, d time.Duration) { p.requests.VerifAge(d) }
+
+// VerifStopTimers releases the tickers a non-running peer may have started.
+func VerifStopTimers(p *Peer) { p.stopUpload() }
+
+// VerifPeerState is a snapshot of the protocol state of a peer.
+type VerifPeerState struct {
+	InfoKnown    bool
+	Unchoked     bool
+	Interested   bool
+	AmUnchoking  bool
+	AmInterested bool
+	IsSeed       bool
+	GotExtended  bool
+	BitmapNil    bool
+	Bitmap       []bool
+	BitmapLen    int
+	Fast         []uint32
+	ReqQ         int
+	Requests     []requests.VerifRequest
+	Uploads      []Requested
+	Pending      int // events not yet accepted by the torrent
+	PexPending   []pex.Peer
+	PexDel       []pex.Peer
+	PexSent      []pex.Peer
+	UploadTicker bool
+}
+
+func VerifState(p *Peer, npieces int) VerifPeerState {
+	s := VerifPeerState{
+		InfoKnown:    p.Info != nil,
+		Unchoked:     p.unchoked != 0,
+		Interested:   p.interested != 0,
+		AmUnchoking:  p.amUnchoking != 0,
+		AmInterested: p.amInterested,
+		IsSeed:       p.isSeed,
+		GotExtended:  p.gotExtended,
+		BitmapNil:    p.bitmap == nil,
+		BitmapLen:    p.bitmap.Len(),
+		Fast:         append([]uint32{}, p.fast...),
+		ReqQ:         p.reqQ,
+		Requests:     p.requests.VerifList(),
+		Uploads:      append([]Requested{}, p.requested...),
+		Pending:      len(p.events),
+		PexPending:   append([]pex.Peer{}, p.pexState.pending...),
+		PexDel:       append([]pex.Peer{}, p.pexState.pendingDel...),
+		PexSent:      append([]pex.Peer{}, p.pexState.sent...),
+		UploadTicker: p.uploadTicker != nil,
+	}
+	s.Bitmap = make([]bool, npieces)
+	for i := range s.Bitmap {
+		s.Bitmap[i] = p.bitmap.Get(i)
+	}
+	return s
+}
+
+// VerifSetExt sets the extension ids the remote peer is taken to have
+// advertised (what an Extended0 message would do).
+func VerifSetExt(p *Peer, pexExt, metadataExt, dontHaveExt uint32) {
+	p.pexExt, p.metadataExt, p.dontHaveExt = pexExt, metadataExt, dontHaveExt
+}
